@@ -49,8 +49,41 @@ def root_name(e):
     return e.id if isinstance(e, ast.Name) else None
 
 
+def segment_lookup(ctx, prog):
+    """get_path: in every step the *first* lookup uses the path segment exactly as given (a key '0' of a mapping is a
+    string; conversion to an index is only the fallback after the lookup failed)."""
+    gp = prog.func(M + '.get_path')
+
+    class SubRaises(Quiet):
+        def sub_raises(self, walker, op, st):
+            return ('KeyError', 'IndexError', 'TypeError') if op.kind == 'sub_load' else ()
+    w, paths = paths_of(prog, gp, model=SubRaises(prog))
+    n = 0
+    for p in paths:
+        elems = [o for o in p.ops if o.kind == 'iter_next' and o.info is not False]
+        for i, it in enumerate(elems):
+            end = elems[i + 1].seq if i + 1 < len(elems) else 10 ** 9
+            subs = [o for o in p.ops if it.seq < o.seq < end and o.kind == 'sub_load']
+            if not subs:
+                continue
+            # the element token of this iteration: the first name_store after the iter_next
+            st = [o for o in p.ops if it.seq < o.seq < end and o.kind == 'name_store' and isinstance(o.val, ast.Name)
+                  and o.val.id.startswith('$e')]
+            if not st:
+                continue
+            n += 1
+            first = subs[0]
+            ok = txt(first.val.slice) == st[0].val.id
+            ctx.ob('T9.seg', gp.fq, 'the first lookup of a step subscripts with the path segment as given (conversion to int only after it '
+                   'failed)', ok, loc=loc(gp, first.node), detail='first lookup uses %s' % txt(w.expand(first.val.slice)),
+                   path=p.describe() if not ok else None)
+    if n == 0:
+        ctx.unknown('T9.seg', gp.fq, 'no per-segment lookup found', gp.loc)
+
+
 def run(ctx):
     prog = ctx.program
+    segment_lookup(ctx, prog)
     for fname, roles in INPUT_ROLES.items():
         f = prog.func('%s.%s' % (M, fname))
         bad = []
